@@ -413,7 +413,7 @@ class Run:
         try:
             fn(obj, target, **kwargs)
         except BaseException as e:  # noqa: BLE001
-            if isinstance(e, core.HarnessError):
+            if isinstance(e, (core.HarnessError, core.RunTimeout)):
                 raise
             err = e
         crash = self.fs.end_of_op() if err is None else None
